@@ -634,7 +634,7 @@ impl TulispValue {
             TulispValue::Float { value, .. } => Ok(*value),
             t => Err(Error::new(
                 ErrorKind::TypeMismatch,
-                format!("Expected number, got: {:?}", t),
+                format!("Expected number, got: {}", t),
             )),
         }
     }
@@ -645,7 +645,7 @@ impl TulispValue {
             TulispValue::Int { value, .. } => Ok(*value as f64),
             t => Err(Error::new(
                 ErrorKind::TypeMismatch,
-                format!("Expected number, got: {:?}", t),
+                format!("Expected number, got: {}", t),
             )),
         }
     }
@@ -655,7 +655,7 @@ impl TulispValue {
             TulispValue::Int { value, .. } => Ok(*value),
             t => Err(Error::new(
                 ErrorKind::TypeMismatch,
-                format!("Expected integer: {:?}", t),
+                format!("Expected integer: {}", t),
             )),
         }
     }
@@ -666,7 +666,7 @@ impl TulispValue {
             TulispValue::Int { value, .. } => Ok(*value),
             t => Err(Error::new(
                 ErrorKind::TypeMismatch,
-                format!("Expected number, got {:?}", t),
+                format!("Expected number, got {}", t),
             )),
         }
     }
